@@ -2,6 +2,9 @@ import Driver.Util
 import ClairModel.Model.Match
 import ClairModel.Model.MatchProto
 import ClairModel.Model.EnrichProto
+import ClairModel.Model.MatchFan
+import ClairModel.Model.MatchSetup
+import ClairModel.Model.MatchStore
 
 /-!
   Line-protocol driver of the C05 functional model.
@@ -13,15 +16,8 @@ import ClairModel.Model.EnrichProto
 -/
 namespace Driver.C05
 open ClairModel.Match
-
-/-- A row of the stub vulnerability store. -/
-structure Row where
-  vuln : Vuln
-  name : Nat
-  dist : Nat
-  repo : Nat
-  fixed : Bool
-  inRange : Bool
+open ClairModel.MatchStore (Row storeGet)
+open ClairModel.MatchSetup (Factory Options libvulnNew)
 
 structure Scenario where
   pkgs : List Pkg := []
@@ -35,30 +31,15 @@ structure Scenario where
   proto : ClairModel.MatchProto.State := ClairModel.MatchProto.init 1 []
   /-- state of the enrichment-phase machine (lines starting with `e`) -/
   eproto : ClairModel.EnrichProto.State := ClairModel.EnrichProto.init 1 []
-
-/-! ### the stub store (go/internal/c05 `stubStore.Get`) -/
-
-def cDistributionDID : Nat := 4
-def cRepositoryName : Nat := 12
-def cHasFixedInVersion : Nat := 14
-/-- marker constraints the scripted matchers put in `Query()` to script the store -/
-def cRespectCtx : Nat := 98
-def cGetFails : Nat := 99
-
-def rowMatches (q : List Nat) (dbSide : Bool) (r : Record) (row : Row) : Bool :=
-  row.name == r.name
-    && (!(q.contains cDistributionDID) || row.dist == r.dist)
-    && (!(q.contains cRepositoryName) || row.repo == r.repo)
-    && (!(q.contains cHasFixedInVersion) || row.fixed)
-    && (!dbSide || row.inRange)
-
-def dedupAppend (old : List Vuln) (hits : List Vuln) : List Vuln :=
-  hits.foldl (fun l v => if l.any (fun x => x.id == v.id) then l else l ++ [v]) old
-
-def storeGet (rows : List Row) : Store := fun cancelled q dbSide recs =>
-  if q.contains cGetFails || (cancelled && q.contains cRespectCtx) then none
-  else some (recs.foldl (fun acc r =>
-    upd r.pkg (fun o => dedupAppend (o.getD []) ((rows.filter (rowMatches q dbSide r)).map (·.vuln))) acc) [])
+  /-- state of the machine of `Match` (lines starting with `f`) -/
+  fan : ClairModel.MatchFan.State := ClairModel.MatchFan.init 1 0
+  /-- the registry: factories building matcher labels (`m<i>` = matcher i of the
+      scenario, `d:<name>` = a default matcher, uninterested in every record) -/
+  factories : List (Factory String) := []
+  /-- out-of-tree matchers (indices); `none`: all matchers of the scenario -/
+  oot : Option (List Nat) := none
+  /-- outcome of the last `new` line -/
+  constructed : Option (List String) := none
 
 /-! ### the scripted matcher (go/internal/c05 `scriptMatcher`) -/
 
@@ -131,6 +112,42 @@ def parseEnricher (ws : List String) : Option Enricher := do
   pure { kind := kind, enrich := fun r =>
     if fail then none else some (msgs.map fun m => if sees then m + 1000 * r.vulns.length else m) }
 
+/-! ### matcher construction lines -/
+
+def strList (s : String) : List String := if s == "-" || s == "" then [] else s.splitOn ","
+
+def labelsOf (s : String) : Option (List String) :=
+  if s == "err" then none else some ((strList s).map fun i => "m" ++ i)
+
+def parseFactory (ws : List String) : Option (Factory String) := do
+  let name ← kv ws "name"
+  let cfgable ← kvBool ws "cfgable"
+  let cfgok ← kvBool ws "cfgok"
+  let plain ← kv ws "plain"
+  let cfgd ← kv ws "cfgd"
+  pure { name := name, configurable := cfgable, configureOk := cfgok,
+         build := fun c => if c then labelsOf cfgd else labelsOf plain }
+
+def parseDefault (ws : List String) : Option (Factory String) := do
+  let name ← kv ws "name"
+  let cfgable ← kvBool ws "cfgable"
+  let cfgok ← kvBool ws "cfgok"
+  let mname ← kv ws "mname"
+  pure { name := name, configurable := cfgable, configureOk := cfgok, build := fun _ => some ["d:" ++ mname] }
+
+def parseNames (s : String) : Option (List String) := if s == "nil" then none else some (strList s)
+
+/-- a default matcher of the registry: not interested in any record of a scenario -/
+def uninterested : Matcher :=
+  { kind := .plain, filter := fun _ => false, query := [], vulnerable := fun _ _ => some false, remote := fun _ => none }
+
+def matcherOfLabel (ms : List Matcher) (l : String) : Matcher :=
+  if l.startsWith "m" then
+    match (String.ofList (l.toList.drop 1)).toNat? with
+    | some i => ms.getD i uninterested
+    | none => uninterested
+  else uninterested
+
 /-! ### canonical rendering (the harness sorts the same way) -/
 
 def insertBy {α : Type} (le : α → α → Bool) (x : α) : List α → List α
@@ -165,11 +182,20 @@ def renderReport (r : Report) : String := s!"V={renderV r} P={renderLists r.pkgV
 def scenarioIR (s : Scenario) : IndexReport :=
   { packages := s.pkgs, envs := s.envs, dists := s.dists, repos := s.repos }
 
+def strLe (a b : String) : Bool := a < b || a == b
+
 def scan (s : Scenario) (api ctx : String) : String :=
   let recs := indexRecords (scenarioIR s)
   let store := storeGet s.rows
   let cancelled := ctx == "cancelled"
-  if api == "match" then
+  if api == "new" then
+    match s.constructed with
+    | none => "new-err"
+    | some labels =>
+      match enrichedMatch cancelled store (labels.map (matcherOfLabel s.matchers)) s.enrichers recs with
+      | none => "err"
+      | some (r, em) => s!"ok {renderReport r} E={renderLists em}"
+  else if api == "match" then
     let (r, n) := matchAll cancelled store s.matchers recs
     s!"ok {renderReport r} errs={n}"
   else
@@ -194,6 +220,22 @@ def parseProtoOp (ws : List String) : Option ClairModel.MatchProto.Op :=
   | ["collectorEnd"] => some .collectorEnd
   | ["cancelParent"] => some .cancelParent
   | _ => none
+
+def parseFanOp (ws : List String) : Option ClairModel.MatchFan.Op :=
+  match ws with
+  | ["spawn"] => some .spawn
+  | ["finish", i, b] => do pure (.finish (← i.toNat?) ((← b.toNat?) != 0))
+  | ["send", i] => i.toNat?.map .send
+  | ["fanWait"] => some .fanWait
+  | ["closeC"] => some .closeC
+  | ["collect"] => some .collect
+  | ["collectorEnd"] => some .collectorEnd
+  | _ => none
+
+def renderFOut : ClairModel.MatchFan.Out → String
+  | .ok => "ok"
+  | .disabled => "disabled"
+  | .panic => "panic"
 
 def parseEnrichOp (ws : List String) : Option ClairModel.EnrichProto.Op :=
   match ws with
@@ -244,6 +286,42 @@ def stepLine (s : Scenario) (l : String) : Scenario × String :=
       let (p', o) := ClairModel.EnrichProto.step s.eproto op
       ({ s with eproto := p' }, renderEOut o)
     | none => (s, "bad-op")
+  | ["f-init", lim, n] =>
+    match lim.toNat?, n.toNat? with
+    | some lim, some n => ({ s with fan := ClairModel.MatchFan.init lim n }, "ok")
+    | _, _ => (s, "bad-op")
+  | "f" :: ws =>
+    match parseFanOp ws with
+    | some op =>
+      let (p', o) := ClairModel.MatchFan.step s.fan op
+      ({ s with fan := p' }, renderFOut o)
+    | none => (s, "bad-op")
+  | ["f-final"] =>
+    (s, s!"final={b01 (ClairModel.MatchFan.final s.fan)} errs={s.fan.errs.length} collected={s.fan.collected.length}")
+  | "factory" :: ws =>
+    match parseFactory ws with
+    | some f => ({ s with factories := s.factories ++ [f] }, "ok")
+    | none => (s, "bad-op")
+  | "regdefault" :: ws =>
+    match parseDefault ws with
+    | some f => ({ s with factories := s.factories ++ [f] }, "ok")
+    | none => (s, "bad-op")
+  | ["oot", l] =>
+    match natList l with
+    | some l => ({ s with oot := some l }, "ok")
+    | none => (s, "bad-op")
+  | "new" :: ws =>
+    match kvBool ws "store", kvBool ws "client", (kv ws "ret").bind String.toInt?, kv ws "names", kv ws "cfgs" with
+    | some st, some cl, some ret, some names, some cfgs =>
+      let oot := (s.oot.getD (List.range s.matchers.length)).map fun i => s!"m{i}"
+      let o : Options String := { hasStore := st, hasClient := cl, updateRetention := ret,
+                                  matcherNames := parseNames names, matcherConfigs := strList cfgs, matchers := oot }
+      let res := libvulnNew s.factories o
+      ({ s with constructed := res },
+        match res with
+        | none => "err"
+        | some ls => "ok " ++ orDash (",".intercalate (sortBy strLe ls)))
+    | _, _, _, _, _ => (s, "bad-op")
   | ["e-final"] =>
     (s, s!"final={b01 (ClairModel.EnrichProto.final s.eproto)} err={b01 s.eproto.workerErr} collected={s.eproto.collected.length} skipped={s.eproto.skipped.length}")
   | ["p-final"] =>
